@@ -172,6 +172,8 @@ class ComputeTypeVisitor(Visitor.DefaultVisitor):
                     expr.GetLeft().GetType(), expr.GetRight().GetType()
                 )
                 expr.SetType(expr.GetOperator().GetReturnType())
+            elif isinstance(expr, ast.ConstructPrimitiveExpression):
+                self._ValidateConstructorArguments(expr)
             elif isinstance(expr, ast.AffixExpression):
                 operandType = expr.children[0].GetType()
                 if not (operandType.IsPrimitive() and operandType.IsScalar()):
@@ -179,6 +181,40 @@ class ComputeTypeVisitor(Visitor.DefaultVisitor):
                 expr.SetType(operandType)
 
         return expr.GetType()
+
+    def _ValidateConstructorArguments(self, expr):
+        """The arguments must provide exactly the components of the
+        constructed type: scalars and vectors for a vector (or a scalar), one
+        vector per row for a matrix."""
+        targetType = expr.GetType()
+        argumentTypes = [arg.GetType() for arg in expr.GetArguments()]
+
+        valid = all([t is not None and t.IsPrimitive() for t in argumentTypes])
+        if valid and targetType.IsMatrix():
+            valid = len(argumentTypes) == targetType.GetRowCount() and all(
+                [
+                    t.IsVector()
+                    and t.GetComponentCount() == targetType.GetColumnCount()
+                    for t in argumentTypes
+                ]
+            )
+        elif valid:
+            valid = not any([t.IsMatrix() for t in argumentTypes])
+            componentCount = sum(
+                [
+                    t.GetComponentCount() if t.IsVector() else 1
+                    for t in argumentTypes
+                ]
+            )
+            expectedCount = (
+                targetType.GetComponentCount() if targetType.IsVector() else 1
+            )
+            valid = valid and componentCount == expectedCount
+
+        if not valid:
+            Errors.ERROR_INVALID_CONSTRUCTOR_ARGUMENTS.Raise(
+                targetType, ", ".join([str(t) for t in argumentTypes])
+            )
 
     def v_VariableDeclaration(self, decl, ctx):
         assert isinstance(decl, ast.VariableDeclaration)
